@@ -103,15 +103,10 @@ def check_calderon(desc):
 CHECKS = {"calderon": check_calderon}
 
 
-def shards(tier):
-    out = []
+def shards(tier, seed=1):
     if tier == "quick":
-        for i in range(12):
-            out.append({"check": "calderon", "examples": 3, "budget_s": 200, "cls": "regular" if i % 3 else "hard", "rep": i, "max_elems": 60})
-    else:
-        for i in range(16):
-            out.append({"check": "calderon", "examples": 40, "budget_s": 2400, "cls": "regular" if i % 3 else "hard", "rep": i, "max_elems": 140, "deep": True})
-    return out
+        return [{"check": "calderon", "examples": 6, "budget_s": 420, "cls": c, "rep": i, "max_elems": 40} for i, c in enumerate(["regular", "hard", "regular", "hard"])]
+    return [{"check": "calderon", "examples": 60, "budget_s": 3000, "cls": "regular" if i % 2 else "hard", "rep": i, "max_elems": 140, "deep": True} for i in range(6)]
 
 
 def strategy(spec):
